@@ -45,6 +45,21 @@ def l1_monitor(rec):
     return out
 
 
+def l1_rewind_monitor(rec):
+    """C03_resume_establishes_nostall on the real rewind_in_progress: after a resume no step has events waiting below its
+    worker limit"""
+    if rec[0] != "rewind":
+        return []
+    _, before, after, cmds, cfg = rec
+    out = []
+    for name, w in after.workers.items():
+        if w.queue and len(w.in_progress) < w.config.num_workers:
+            out.append("after rewind_in_progress step %s has %d queued events but only %d of %d workers running (%d were in "
+                       "progress and %d queued before)" % (name, len(w.queue), len(w.in_progress), w.config.num_workers,
+                                                          len(before.workers[name].in_progress), len(before.workers[name].queue)))
+    return out
+
+
 def l2_monitor(spec, rec, obs):
     """every idle announcement of the run against what the real runner still held at that moment"""
     out = []
@@ -78,7 +93,8 @@ def run(ctx):
                 "the real runner's scheduled wake-ups, tick buffer and delivered-but-unprocessed ticks are inspected; "
                 "distinct key = history index / (template, log length, stream length, facts)")
     ctx.prove()
-    run_l1(ctx, ctx.n(160, 4000), l1_monitor, THEOREMS, need=("tick_TickIdleCheck",))
+    run_l1(ctx, ctx.n(160, 4000), lambda rec: l1_monitor(rec) + l1_rewind_monitor(rec), THEOREMS,
+           need=("tick_TickIdleCheck", "rewind_peek"))
     PR.install()
     PR.reset()
     fails, facts = run_l2(ctx, [S.sendnone, S.retrychain, S.retrywait, S.tworetries, S.sameretries, S.fanout, S.waitfan, S.irflow], ctx.n(210, 4000), l2_monitor,
